@@ -52,10 +52,18 @@ def load_tables(master_version=33, local=None, root=None):
 class Env(object):
     """Decision helpers: how the reference branches on (possibly symbolic) values."""
 
-    def __init__(self, ctx, max_factor=3, max_diff_width=64):
+    def __init__(self, ctx, max_factor=3, max_diff_width=64, no_missing=False):
         self.ctx = ctx
         self.max_factor = max_factor
         self.max_diff_width = max_diff_width
+        self.no_missing = no_missing   # bound: value fields are assumed not to be all ones
+
+    def is_missing(self, v, n):
+        """Is the n-bit field v all ones?  (Under no_missing the all-ones case is excluded from the run.)"""
+        if self.no_missing and sc.is_sym(v):
+            sc.add(sc.unwrap(v) != all_ones(n))
+            return False
+        return self.truth(v == all_ones(n))
 
     def truth(self, cond):
         return bool(cond)   # forks under CrossHair when cond is symbolic
@@ -105,6 +113,7 @@ class Reference(object):
         self.compressed = compressed
         self.outs = [SubsetOut() for _ in range(n_subsets)]
         self.cur = 0  # current subset (uncompressed)
+        self.inline_sequences = False
 
     # ------------------------------------------------------------------ raw access
     def _u(self, n):
@@ -121,7 +130,7 @@ class Reference(object):
 
     def _uint_or_none(self, n):
         v = self._u(n)
-        if n > 1 and self.env.truth(v == all_ones(n)):
+        if n > 1 and self.env.is_missing(v, n):
             return None
         return v
 
@@ -190,7 +199,7 @@ class Reference(object):
         out = []
         for _ in range(self.n_subsets):
             d = self._u(w)
-            if self.env.truth(d == all_ones(w)):
+            if self.env.is_missing(d, w):
                 out.append(None)
             else:
                 raw = mn + d
@@ -314,7 +323,12 @@ class Reference(object):
             else:
                 if d not in self.D:
                     raise RefMalformed('unknown sequence %06d' % d)
-                self._walk(list(self.D[d]))
+                if self.inline_sequences:
+                    # NCEP-style tables: a sequence may end in a replication whose members follow the sequence
+                    ids[i:i] = list(self.D[d])
+                    n = len(ids)
+                else:
+                    self._walk(list(self.D[d]))
 
     def _last_value_all_equal(self):
         if not self.compressed:
@@ -532,10 +546,11 @@ class Reference(object):
 
 
 def reference_decode(ctx, ids, bits, n_subsets=1, compressed=False, pos=0, tables=None,
-                     max_factor=3, max_diff_width=64):
+                     max_factor=3, max_diff_width=64, no_missing=False, inline_sequences=False):
     B, D = tables or load_tables()
-    env = Env(ctx, max_factor=max_factor, max_diff_width=max_diff_width)
+    env = Env(ctx, max_factor=max_factor, max_diff_width=max_diff_width, no_missing=no_missing)
     ref = Reference(B, D, env, bits, pos=pos, n_subsets=n_subsets, compressed=compressed)
+    ref.inline_sequences = inline_sequences
     ref.run(ids)
     return ref
 
